@@ -3,11 +3,13 @@
 # Runs, for every change kept under /verif/seeded, the quick check named in its meta.json
 # ("detected_by") against a scratch worktree with the change applied, and writes one line per
 # change to seeded/RESULTS.txt. /repo itself is not touched.
-cd /verif || exit 2
+root="$(cd "$(dirname "$(readlink -f "$0")")/.." && pwd)"
+cd "$root" || exit 2
+export SEEDED_ROOT="$root"
 par=${1:-3}
 python3 - <<'PY' > /tmp/seeded_jobs.$$
-import json, glob
-for m in sorted(glob.glob('/verif/seeded/*/meta.json')):
+import json, glob, os
+for m in sorted(glob.glob(os.environ['SEEDED_ROOT']+'/seeded/*/meta.json')):
     d = json.load(open(m))
     by = [k for k in d['detected_by'] if k != 'none'] or [d['property']]
     print(d['id'], by[0])
